@@ -246,3 +246,56 @@ def alpha_rename_each(prog, fresh_suffix="_ar"):
             q["mods"][m] = replace_at(q["mods"][m], path, r2)
             out.append(q)
     return out
+
+
+def rename_decl_to_imported_name(prog):
+    """a local declaration is renamed to a name that an unqualified import also exports (and that the module does not
+    otherwise use): the local declaration shadows the import, so nothing changes.  None when there is no such pair."""
+    m = prog["main"]
+    stmts = prog["mods"][m]
+    exported = []
+    for st in stmts:
+        if st["k"] == "use" and not st["q"] and st["s"] in prog["mods"]:
+            exported += [d["s"] for d in prog["mods"][st["s"]] if d["k"] == "decl" and not d["s"].startswith("@")]
+    if not exported:
+        return None
+    local = [st["s"] for st in stmts if st["k"] == "decl"]
+    used = set()
+    for st in stmts:
+        if st["k"] == "decl":
+            used |= free_names(st["a"][st["n"]], {b["s"] for b in st["a"][:st["n"]]})
+            used |= {b["s"] for b in st["a"][:st["n"]]}
+        elif st["k"] == "res":
+            used |= free_names(st["a"][0])
+    binders = set()
+
+    def collect(n):
+        if n["k"] == "rec":
+            binders.add(n["s"])
+        for c in n["a"]:
+            collect(c)
+    for st in stmts:
+        collect(st)
+    targets = [e for e in exported if e not in local and e not in used and e not in binders]
+    sources = [d for d in local if not d.startswith("@")]
+    if not targets or not sources:
+        return None
+    old, new = sources[0], targets[0]
+
+    def ren(n, bound):
+        n = dict(n)
+        if n["k"] == "var" and not n["q"] and n["s"] == old and old not in bound:
+            n["s"] = new
+            return n
+        if n["k"] == "decl":
+            b2 = bound | {b["s"] for b in n["a"][:n["n"]]}
+            n["a"] = n["a"][:n["n"]] + [ren(n["a"][n["n"]], b2)]
+            if n["s"] == old:
+                n["s"] = new
+            return n
+        b2 = bound | ({n["s"]} if n["k"] == "rec" else set())
+        n["a"] = [ren(c, b2) for c in n["a"]]
+        return n
+    q = copy.deepcopy(prog)
+    q["mods"][m] = [ren(st, set()) for st in stmts]
+    return q
